@@ -387,3 +387,143 @@ class attrspec_to_escape:
         for name, const in (("italics", "_ITALICS"), ("underline", "_UNDERLINE"), ("standout", "_STANDOUT"), ("strikethrough", "_STRIKETHROUGH")):
             yield f"{name}-iff-specified", eq(flags[name], flag(v, const))
         yield "nothing-else-switched-on", both(neg(flags["faint"]), neg(flags["invisible"]))
+
+
+# =================================================================================================================
+# Screen._last_row — the insert-mode trick for the bottom-right cell (C04: "the insert-mode trick used for the
+# bottom-right cell leave[s] the terminal in the same state as a full repaint of that canvas, and never scroll[s]").
+#
+# draw_screen writes the returned row, then `back` backspaces, then — in insert mode — the returned segment `ins`.
+# The last cell Z of the original row is therefore written one cell early, where the cell Y before it belongs, and
+# inserting Y (after stepping back over Z) pushes Z into the bottom-right cell, which is never written directly.
+# For this to paint the original row:   new_row[:-1] ++ [ins] ++ new_row[-1:]  must BE the original row, cut at other
+# places (same text in the same order, every piece with the attribute and character set of the segment it was cut
+# from); the last piece must be exactly one cell (Z) and `back` its width; `ins` must be exactly one cell (Y).
+#
+# Texts are abstract (pyvc/text.py, DESIGN 3.2 (a)): a sequence of characters with a column width in {0,1,2} each and
+# the width prefix sum W — `Text("str")`; and bytes in a single-byte encoding (one column per byte) — `Text("bytes")`
+# with the encoding global fixed to "narrow".  calc_width / calc_text_pos are used through their C11 contracts.
+# The row is any list of >= 1 segments: the last two segments carry such texts, the segments before them are never
+# looked at by the function and are opaque individuals here (an access to their text would be `Unsupported`).
+# NOT covered here (bounded check only): bytes in UTF-8 / double-byte encodings (the C11 contracts describe columns of
+# utf-8 bytes only along decode steps — no monotonicity of columns is available without induction).
+
+from contracts.C11_width import ENC, W, tlen, width_at  # noqa: E402
+from pyvc.text import text_eq  # noqa: E402
+
+SU = "urwid/str_util.py:"
+ATTR = Opaque("Attr")
+CSET = Opt(Atom("0", "U"))
+
+
+def _fresh_row(st, hint):
+    """A row of 1, 2 or 3 segments (the function reads row[-1] and row[-2] only and copies what is in front of them
+    with list operations: 3 stands for "something in front"); see the note on symbolic lengths at the contract."""
+    kind = ("str", "bytes")[st.fork(2)]
+    n = 1 + st.fork(3)
+    last = (ATTR.fresh(st, "z_attr"), CSET.fresh(st, "z_cs"), Text(kind).fresh(st, "last_text"))
+    prev = (ATTR.fresh(st, "p_attr"), CSET.fresh(st, "p_cs"), Text(kind).fresh(st, "prev_text"))
+    head = (ATTR.fresh(st, "h_attr"), CSET.fresh(st, "h_cs"), Opaque("SegmentText").fresh(st, "head_text"))
+    return Q.LRef(((head, prev, last)[3 - n:]))
+
+
+def TW(t, k):
+    """Columns of the first k elements of a segment text (relative to its start)."""
+    return (W(t, k) - W(t, 0)) if t.kind == "str" else k
+
+
+def cw(t, k):
+    """Columns of element k."""
+    return width_at(t, k) if t.kind == "str" else 1
+
+
+def one_cell(t):
+    """t is one screen cell: a first character of non-zero width followed by zero-width characters only."""
+    n = tlen(t)
+    return both(n >= 1, cw(t, 0) >= 1, cw(t, 0) == TW(t, n))
+
+
+def seg_eq(x, y):
+    return both(x[0] == y[0], opt_eq(x[1], y[1]), text_eq(x[2], y[2]) if hasattr(x[2], "kind") and hasattr(y[2], "kind") else x[2] == y[2])
+
+
+def _row_items(r):
+    s = r.seq if isinstance(r, Q.LRef) else r
+    return s
+
+
+@contract(RD + "Screen._last_row", property="C04", globals_=ENC, replayable=False)
+class last_row:
+    self_shape = Obj(_rdb.Screen, {})
+    params = dict(row=Custom(_fresh_row, "row of segments"))
+    raises = ()
+
+    def requires(s, a):
+        row = a.row.seq
+        n = Q.seq_len(row)
+        last = Q.seq_get(row, n - 1)[2]
+        ln = tlen(last)
+        cols = TW(last, ln)
+        enc = implies(last.kind == "bytes", a.g__byte_encoding == "narrow")
+        # the last segment is at least one column wide, and the cell before the last cell exists where the function
+        # looks for it: in the last segment unless that is a single cell (then, if there is another segment, in it)
+        pre = both(enc, cols >= 1)
+        # (a segment does not begin with a zero-width character: what precedes the last cell inside the last segment
+        # is then at least one column wide.  Slightly more than the function needs — it needs SOME character of
+        # non-zero width before the last cell — but free of quantifiers.)
+        pre = both(pre, cw(last, 0) >= 1)
+        if not isinstance(n, int) or n >= 2:
+            prev = Q.seq_get(row, n - 2)[2]
+            pre = both(pre, implies(cw(last, 0) == cols, TW(prev, tlen(prev)) >= 1))
+        return pre
+
+    def ensures(old, s, a, result):
+        new_row, back, ins = result
+        row = a.old.row.seq
+        n = Q.seq_len(row)
+        last = Q.seq_get(row, n - 1)
+        zt = last[2]
+        cols = TW(zt, tlen(zt))
+        out = new_row.seq
+        m = Q.seq_len(out)
+        yield "the-row-handed-in-is-not-modified", both(Q.seq_len(a.row.seq) == n, a.row.seq is row)
+        single = cw(zt, 0) == cols  # the last segment is one cell
+        if isinstance(n, int) and n == 1 and bool(single):
+            # "a row that is one double-width character": there is no Y to slide it with
+            yield "a-row-that-is-one-cell-is-returned-as-it-is", both(new_row is a.row, back == 0, ins is None)
+            return
+        yield "a-segment-to-insert", ins is not None
+        if ins is None:
+            return
+        yield "at-least-the-last-cell-is-drawn-first", m >= 1
+        z = Q.seq_get(out, m - 1)
+        yield "last-piece-drawn-is-exactly-one-cell", one_cell(z[2])
+        yield "back-is-the-width-of-the-cell-moved", both(back == TW(z[2], tlen(z[2])), back == cw(z[2], 0), 1 <= back, back <= 2)
+        yield "inserted-piece-is-exactly-one-cell", one_cell(ins[2])
+        yield "moved-cell-keeps-attribute-and-charset-of-the-last-segment", both(z[0] == last[0], opt_eq(z[1], last[1]))
+        if bool(single):
+            # Z is the whole last segment, Y is cut from the end of the segment before it
+            prev = Q.seq_get(row, n - 2)
+            pt = prev[2]
+            yield "moved-cell-is-the-last-segment", text_eq(z[2], zt)
+            yield "inserted-piece-has-attribute-and-charset-of-its-segment", both(ins[0] == prev[0], opt_eq(ins[1], prev[1]))
+            cut = tlen(pt) - tlen(ins[2])  # where the previous segment is cut
+            yield "inserted-piece-is-the-end-of-the-previous-segment", both(0 <= cut, text_eq(ins[2], pt.slice(cut, tlen(pt))))
+            yield "rest-of-the-previous-segment-stays-in-place", ite(cut == 0, m == n - 1,
+                                                                      both(m == n, seg_eq(Q.seq_get(out, imax(m - 2, 0)), (prev[0], prev[1], pt.slice(0, cut)))))
+            keep = n - 2
+        else:
+            # Z and Y are both cut from the last segment
+            p = tlen(zt) - tlen(z[2])
+            cut = p - tlen(ins[2])
+            yield "moved-cell-is-the-end-of-the-last-segment", both(0 <= p, text_eq(z[2], zt.slice(p, tlen(zt))))
+            yield "inserted-piece-has-attribute-and-charset-of-its-segment", both(ins[0] == last[0], opt_eq(ins[1], last[1]))
+            yield "inserted-piece-is-what-precedes-the-moved-cell", both(0 <= cut, text_eq(ins[2], zt.slice(cut, p)))
+            yield "rest-of-the-last-segment-stays-in-place", ite(cut == 0, m == n,
+                                                                  both(m == n + 1, seg_eq(Q.seq_get(out, imax(m - 2, 0)), (last[0], last[1], zt.slice(0, cut)))))
+            keep = n - 1
+        # the segments before the one(s) cut are the same, in the same places
+        if isinstance(keep, int):
+            yield "segments-before-are-kept", both(*[seg_eq(Q.seq_get(out, k), Q.seq_get(row, k)) for k in range(keep)]) if keep else True
+        else:
+            yield "segments-before-are-kept", forall(0, keep, lambda k: seg_eq(Q.seq_get(out, k), Q.seq_get(row, k)))
